@@ -108,6 +108,84 @@ func checkLevelDetection(c *Ctx, r *Report) {
 	})
 	if n == 0 {
 		r.Unk(rule, "candidate level selection", c.Pos(fn.Pos()), fmt.Sprintf("no append of a level name found in %s", shortFn(fn)))
+		return
+	}
+	// what is handed back on success is that list of candidates and nothing else: no second pass that drops or adds levels
+	// (every level whose pattern matches is a candidate; AcquirePriv breaks ties with the level it last knew)
+	var candAppends []*ssa.Call
+	allInstrs(fn, func(in ssa.Instruction) {
+		call, ok := in.(*ssa.Call)
+		if !ok {
+			return
+		}
+		if b, ok := call.Call.Value.(*ssa.Builtin); ok && b.Name() == "append" {
+			for _, v := range varargValues(call.Call.Args[1]) {
+				if v != nil && isFieldLoadNamed(v, "Name") {
+					candAppends = append(candAppends, call)
+				}
+			}
+		}
+	})
+	var isCandList func(v ssa.Value, seen map[ssa.Value]bool) bool
+	isCandList = func(v ssa.Value, seen map[ssa.Value]bool) bool {
+		if seen[v] {
+			return true
+		}
+		seen[v] = true
+		if isNilConst(v) {
+			return true
+		}
+		switch x := v.(type) {
+		case *ssa.Phi:
+			for _, e := range x.Edges {
+				if !isCandList(e, seen) {
+					return false
+				}
+			}
+			return true
+		case *ssa.Call:
+			for _, a := range candAppends {
+				if a == x {
+					return isCandList(x.Call.Args[0], seen)
+				}
+			}
+			if b, ok := x.Call.Value.(*ssa.Builtin); ok && b.Name() == "append" {
+				return false
+			}
+			// make([]string, 0, n): an empty base
+		case *ssa.MakeSlice:
+			if k, ok := constInt(x.Len); ok && k == 0 {
+				return true
+			}
+		case *ssa.Slice:
+			if a, ok := x.X.(*ssa.Alloc); ok && x.Low == nil {
+				if k, isC := constInt(x.High); isC && k == 0 {
+					_ = a
+					return true
+				}
+			}
+		}
+		return false
+	}
+	badRet := ""
+	nret := 0
+	allInstrs(fn, func(in ssa.Instruction) {
+		ret, ok := in.(*ssa.Return)
+		if !ok || len(ret.Results) != 2 || !isNilConst(ret.Results[1]) {
+			return
+		}
+		nret++
+		if !isCandList(ret.Results[0], map[ssa.Value]bool{}) {
+			badRet = c.Pos(ret.Pos())
+		}
+	})
+	switch {
+	case nret == 0:
+		r.Unk(rule, "candidate list returned as collected", c.Pos(fn.Pos()), "no success return found in "+shortFn(fn))
+	case badRet != "":
+		r.Bad(rule, "candidate list returned as collected", badRet, "the list handed back on success is not the list of levels whose pattern matched (and whose not-contains strings are absent): a second pass adds or drops levels -- a level whose prompt also satisfies its neighbour's pattern is no longer a candidate, so the driver believes it is somewhere else and types the wrong escalation commands")
+	default:
+		r.OK(rule, "candidate list returned as collected", c.Pos(fn.Pos()), "every success return hands back the accumulated candidates")
 	}
 }
 
